@@ -33,9 +33,17 @@ type part struct {
 	V  []int   `json:"v,omitempty"`  // lit, sgl, exp: the value (code points)
 	Vs [][]int `json:"vs,omitempty"` // dbl: values of the inner parts; at/star/ulist: the elements
 
+	Items []ditem `json:"items,omitempty"` // dblmix: inner values and list expansions
+
 	ck    string   // for classification: "split" (unquoted expansion result), "at", "ulist", "" (literal/quoted)
 	cs    string   // split: the value
 	celem []string // at, ulist: the elements
+}
+
+type ditem struct {
+	List bool    `json:"list"`
+	V    []int   `json:"v"`
+	Es   [][]int `json:"es"`
 }
 
 type kase struct {
@@ -176,6 +184,73 @@ func (g *gen) dbl() (string, part) {
 	return src.String(), p
 }
 
+// "..." holding "$@" / "${@}" / "$*" next to other pieces
+func (g *gen) dblmix() (string, part) {
+	r := g.r
+	n := 1 + r.IntN(3)
+	var src strings.Builder
+	p := part{K: "dblmix", Items: []ditem{}}
+	src.WriteString("\"")
+	lastLit := false
+	hasList := false
+	for i := 0; i < n; i++ {
+		c := r.IntN(5)
+		switch {
+		case c < 2 || (i == n-1 && !hasList):
+			src.WriteString(hx.Pick(r, []string{"$@", "${@}"}))
+			p.Items = append(p.Items, ditem{List: true, Es: hxsplit.RunesList(g.k.params)})
+			hasList, lastLit = true, false
+		case c == 2 && !lastLit:
+			v := genValue(r, g.k.ifs)
+			if v == "" {
+				v = "q"
+			}
+			src.WriteString(v)
+			p.Items = append(p.Items, ditem{V: hxsplit.Runes(v)})
+			lastLit = true
+		case c == 3:
+			src.WriteString("$*")
+			if len(g.k.params) == 0 { // an empty string
+				p.Items = append(p.Items, ditem{V: []int{}})
+			} else { // a list of one element, the joined parameters
+				p.Items = append(p.Items, ditem{List: true, Es: [][]int{hxsplit.Runes(joinFirst(g.k.ifs, g.k.params))}})
+			}
+			lastLit = false
+		default:
+			v := genValue(r, g.k.ifs)
+			if r.IntN(2) == 0 {
+				v = ""
+			}
+			name := g.newVar(v)
+			src.WriteString("${" + name + "}")
+			p.Items = append(p.Items, ditem{V: hxsplit.Runes(v)})
+			lastLit = false
+		}
+	}
+	src.WriteString("\"")
+	// for classification: a quoted string that vanishes contributes nothing, like "$@" without parameters
+	emptyList, allEmpty := false, true
+	for _, it := range p.Items {
+		if it.List && len(it.Es) == 0 {
+			emptyList = true
+		} else if it.List || len(it.V) > 0 {
+			allEmpty = false
+		}
+	}
+	if emptyList && allEmpty {
+		p.ck = "at"
+	}
+	return src.String(), p
+}
+
+func joinFirst(ifs string, l []string) string {
+	sep := ""
+	if ifs != "" {
+		sep = string([]rune(ifs)[0])
+	}
+	return strings.Join(l, sep)
+}
+
 func (g *gen) exp() (string, part) {
 	v := genValue(g.r, g.k.ifs)
 	name := g.newVar(v)
@@ -197,8 +272,10 @@ func (g *gen) word() {
 			s, p = g.lit()
 		case c < 5:
 			s, p = g.sgl()
-		case c < 8:
+		case c < 7:
 			s, p = g.dbl()
+		case c < 8:
+			s, p = g.dblmix()
 		case c < 14:
 			s, p = g.exp()
 		case c < 15: // arithmetic expansion: split like any unquoted expansion
@@ -417,6 +494,20 @@ func (k *kase) bashUnreliable() string {
 			if has(p.V) {
 				return "multibyte_ifs_in_quoted_text"
 			}
+		case "dblmix":
+			for _, it := range p.Items {
+				if has(it.V) {
+					return "multibyte_ifs_in_quoted_text"
+				}
+				for _, v := range it.Es {
+					if has(v) {
+						return "multibyte_ifs_in_quoted_text"
+					}
+				}
+			}
+			if strings.Contains(k.Src, "$*") && []rune(k.ifs)[0] >= 0x80 {
+				return "multibyte_ifs_in_quoted_text"
+			}
 		case "dbl", "at", "star":
 			if p.K == "star" && len(p.Vs) > 1 && []rune(k.ifs)[0] >= 0x80 {
 				return "multibyte_ifs_in_quoted_text" // "$*" joins with it
@@ -542,34 +633,6 @@ func (k *kase) classify() string {
 }
 
 func classifySrc(src string) string {
-	// "$@" (or "${a[@]}") inside double quotes together with other parts
-	inq := false
-	start := 0
-	for i := 0; i < len(src); i++ {
-		switch src[i] {
-		case '\\':
-			i++
-		case '\'':
-			if !inq {
-				j := strings.IndexByte(src[i+1:], '\'')
-				if j >= 0 {
-					i += j + 1
-				}
-			}
-		case '"':
-			if !inq {
-				inq, start = true, i+1
-			} else {
-				inq = false
-				body := src[start:i]
-				for _, at := range []string{"$@", "${@}", "${arr[@]}"} {
-					if strings.Contains(body, at) && body != at {
-						return "dblquoted_at_with_siblings"
-					}
-				}
-			}
-		}
-	}
 	return ""
 }
 
@@ -614,7 +677,12 @@ var pinned = []struct {
 	// known finding: bash drops the leading empty field of " -x" in a word that mentions $@ or $*
 	{true, " -", []string{"  -11"}, nil, "$@"},
 	{true, " -", nil, []string{"  -11"}, "\"$@\"$v0"},
-	// known finding: "$@" next to other parts inside double quotes
+	// fixed (ac9f79b): "$@" next to other parts inside double quotes
+	{true, " \t\n", nil, []string{""}, "\"$v0$@\""},
+	{true, " \t\n", []string{"1", "2"}, nil, "x\"$@$@\"y"},
+	{true, " \t\n", nil, nil, "\"$*$@\""},
+	{true, " \t\n", nil, nil, "\"$*\""},
+	{true, " \t\n", []string{""}, nil, "\"$*${u[@]}\""},
 	{true, " \t\n", []string{"1", "2"}, nil, "\"a$@b\""},
 	{true, " \t\n", []string{"1", "2"}, nil, "\"a${arr[@]}\""},
 }
